@@ -230,3 +230,192 @@ Example C10_copy_example :
           [(0, Copy, []); (1, SetBody [120%N], []); (1, Body, []); (0, Body, []); (0, FileRead None, [])]
   = [ONew true; OBytes []; OBytes [120%N]; OBytes [97%N; 98%N; 99%N]; OBytes [97%N; 98%N; 99%N]].
 Proof. vm_compute. reflexivity. Qed.
+
+(* ==================================================================================================
+   The TEXT layer.  Everything above takes the parsed CONTENT_LENGTH [c : option Z].  Below, the request
+   is built over an environ whose CONTENT_LENGTH is a TEXT [t : option str] (None: the key is absent):
+   [content_length t] is webob.descriptors.parse_int_safe on it (Model/C10_ContentLength.v: None / "" ->
+   None, else int(text), ValueError -> None; int() = CPython's, C12's [py_int]), and
+   [outputs_text chunk s t ...] = [outputs chunk s (content_length t) ...].
+   Domain: texts whose code points are < 256 (WSGI native strings). *)
+Require Import Webob.Lib.PyStr Webob.Model.C10_ContentLength Webob.Proofs.C10_text.
+Require Webob.Lib.C12_PyInt Webob.Proofs.C12_pyint.
+
+(* ---- what parse_int_safe does, for ALL texts of each shape *)
+
+(* whatever content_length returns was int() of a non-empty text *)
+Theorem C10_content_length_is_int : forall t z,
+  content_length t = Some z -> exists s, t = Some s /\ s <> [] /\ py_int s = Some z.
+Proof. exact content_length_some_inv. Qed.
+Print Assumptions C10_content_length_is_int.
+
+(* parse_int raises ValueError exactly where parse_int_safe answers None for a non-empty text *)
+Theorem C10_parse_int_safe_swallows : forall t,
+  match parse_int t with
+  | PInt z => parse_int_safe t = Some z
+  | PNone => parse_int_safe t = None /\ (t = None \/ t = Some [])
+  | PValueError => parse_int_safe t = None /\ exists s, t = Some s /\ s <> [] /\ py_int s = None
+  end.
+Proof. exact parse_int_safe_of_parse_int. Qed.
+Print Assumptions C10_parse_int_safe_swallows.
+
+(* digit strings of EVERY length up to 4300, leading zeros and surrounding whitespace included: the decimal value *)
+Theorem C10_parse_digits : forall l d r,
+  all_ws l -> all_ws r -> Forall (fun c => C12_PyInt.is_digit c = true) d -> d <> [] -> (length d <= 4300)%nat ->
+  content_length (Some (l ++ d ++ r)) = Some (digits_value d).
+Proof. exact parse_padded_digits. Qed.
+Print Assumptions C10_parse_digits.
+
+(* ... with a sign *)
+Theorem C10_parse_signed : forall l (neg : bool) d r,
+  all_ws l -> all_ws r -> Forall (fun c => C12_PyInt.is_digit c = true) d -> d <> [] -> (length d <= 4300)%nat ->
+  content_length (Some (l ++ ((if neg then 45%N else 43%N) :: d) ++ r)) =
+  Some (if neg then (- digits_value d)%Z else digits_value d).
+Proof. exact parse_padded_signed. Qed.
+Print Assumptions C10_parse_signed.
+
+(* every digit string longer than 4300 characters: int() refuses it, content_length is None *)
+Theorem C10_parse_too_many_digits : forall l d r,
+  all_ws l -> all_ws r -> Forall (fun c => C12_PyInt.is_digit c = true) d -> (4300 < length d)%nat ->
+  content_length (Some (l ++ d ++ r)) = None.
+Proof. exact parse_too_many_digits. Qed.
+Print Assumptions C10_parse_too_many_digits.
+
+(* a character other than a digit, int()'s whitespace, '+', '-', '_' anywhere in the text: None *)
+Theorem C10_parse_bad_char : forall s c,
+  In c s -> int_char c = false -> content_length (Some s) = None.
+Proof. exact parse_bad_char. Qed.
+Print Assumptions C10_parse_bad_char.
+
+Example C10_parse_hyps :
+  all_ws [32%N; 9%N; 160%N] /\ Forall (fun c => C12_PyInt.is_digit c = true) [48%N; 52%N; 50%N] /\
+  digits_value [48%N; 52%N; 50%N] = 42%Z /\ int_char 46%N = false /\ int_char 120%N = false.
+Proof. repeat split; repeat constructor. Qed.
+
+Module C10_parse_boundaries_literals.
+Import String.
+Local Open Scope string_scope.
+(* the boundary texts: "0" "00" "+5" " 5 " "5_0" "-1" "-0" "" | "5_" "_5" "5__0" "+-5" "- 5" "+" " " "5.0" "0x10" "1e2" "12a"
+   | NBSP 5 NEL, FS 5 (FS is str.isspace but not int() whitespace), superscript two *)
+Example C10_parse_boundaries :
+  map content_length
+      [Some (H "30"); Some (H "3030"); Some (H "2b35"); Some (H "203520"); Some (H "355f30"); Some (H "2d31"); Some (H "2d30");
+       Some []; None;
+       Some (H "355f"); Some (H "5f35"); Some (H "355f5f30"); Some (H "2b2d35"); Some (H "2d2035"); Some (H "2b"); Some (H "20");
+       Some (H "352e30"); Some (H "30783130"); Some (H "316532"); Some (H "313261");
+       Some (H "a03585"); Some (H "1c35"); Some (H "b2")]
+  = [Some 0%Z; Some 0%Z; Some 5%Z; Some 5%Z; Some 50%Z; Some (-1)%Z; Some 0%Z;
+     None; None;
+     None; None; None; None; None; None; None;
+     None; None; None; None;
+     Some 5%Z; None; None].
+Proof. vm_compute. reflexivity. Qed.
+End C10_parse_boundaries_literals.
+
+(* 4299 zeros and a 5 (4300 digits) is 5; one more zero and int() raises: the header counts as absent *)
+Example C10_parse_long :
+  content_length (Some (repeat 48%N 4299 ++ [53%N])) = Some 5%Z /\
+  content_length (Some (repeat 48%N 4300 ++ [53%N])) = None.
+Proof. split; vm_compute; reflexivity. Qed.
+
+(* ---- the body, from the text *)
+
+(* ALL texts, all streams: a fresh request read through .body, .body_file.read(), .body_file_seekable.read(),
+   .copy().body or .POST yields the body the text announces: the first n bytes if the text parses to
+   0 < n <= len(stream); DisconnectionError if n exceeds the stream; nothing if it parses to n <= 0 ("0", "00",
+   "-1"); and if it does not parse at all (absent, "", malformed, more than 4300 digits) nothing — unless the
+   environ marks the input as terminated, then the whole input *)
+Theorem C10_text_fresh_body : forall chunk s t tm lg lim adv p,
+  1 <= chunk -> In p (fresh_paths5 adv) ->
+  let xs := outputs_text chunk s t false tm lg lim p in
+  match announced_body s t tm lg with
+  | ABytes b => last_out xs = OBytes b
+  | ADisconnect => hd OSkip xs = ODisc /\ Forall (fun x => x = ODisc \/ x = OSkip) xs
+  end.
+Proof. exact text_fresh_body. Qed.
+Print Assumptions C10_text_fresh_body.
+
+(* if the text parses to n then the guarantee of C10_exact_prefix holds with n *)
+Theorem C10_text_exact_prefix : forall chunk s t z tm lg lim adv p,
+  1 <= chunk -> content_length (Some t) = Some z -> (0 < z)%Z -> (z <= Z.of_nat (length s))%Z ->
+  In p (fresh_paths adv) ->
+  last_out (outputs_text chunk s (Some t) false tm lg lim p) = OBytes (firstn (Z.to_nat z) s).
+Proof. exact text_exact_prefix. Qed.
+Print Assumptions C10_text_exact_prefix.
+
+(* no over-read from the text, after ANY history under any buffering: at most n bytes when the text parses to n
+   (none for n <= 0), none when it does not parse and the input is not marked terminated *)
+Theorem C10_text_no_overread : forall chunk s t tm lg lim hist,
+  1 <= chunk ->
+  let pos := fpos (cells (wheap (final_text chunk s t false tm lg lim hist)) 0) in
+  match content_length t with
+  | Some z => pos <= Z.to_nat z /\ ((z <= 0)%Z -> pos = 0)
+  | None => flag0 tm lg = false -> pos = 0
+  end.
+Proof. exact text_no_overread. Qed.
+Print Assumptions C10_text_no_overread.
+
+(* a text that does not parse IS an absent header, for every history on the original and all copies *)
+Theorem C10_text_unparsable_as_absent : forall chunk s t sk tm lg lim hist,
+  content_length t = None ->
+  outputs_text chunk s t sk tm lg lim hist = outputs chunk s None sk tm lg lim hist /\
+  final_text chunk s t sk tm lg lim hist = final chunk s None sk tm lg lim hist.
+Proof. exact text_unparsable_as_absent. Qed.
+Print Assumptions C10_text_unparsable_as_absent.
+
+(* is_body_readable from the text *)
+Theorem C10_text_readable : forall t tm lg,
+  readable_text t tm lg = match content_length t with Some z => (0 <? z)%Z | None => flag0 tm lg end.
+Proof. exact text_readable. Qed.
+Print Assumptions C10_text_readable.
+
+(* refinement, exactness and repeatable reads for every history, from the text *)
+Theorem C10_text_refines_spec : forall chunk s t sk tm lg lim hist,
+  1 <= chunk -> consistent s (content_length t) sk ->
+  exists ss', srun_ok [sinit s (content_length t) sk tm lg] hist (outputs_text chunk s t sk tm lg lim hist) ss'.
+Proof. exact text_refines_spec. Qed.
+Print Assumptions C10_text_refines_spec.
+
+Theorem C10_text_exact : forall chunk s t sk tm lg lim hist,
+  1 <= chunk -> consistent s (content_length t) sk -> long_enough s (content_length t) sk ->
+  outputs_text chunk s t sk tm lg lim hist = fst (srun [sinit s (content_length t) sk tm lg] hist).
+Proof. exact text_exact. Qed.
+Print Assumptions C10_text_exact.
+
+Theorem C10_text_idempotent : forall chunk s t sk tm lg lim hist i a1 a2 a3 b,
+  1 <= chunk -> consistent s (content_length t) sk -> long_enough s (content_length t) sk ->
+  let xs := outputs_text chunk s t sk tm lg lim (hist ++ [(i, Body, a1); (i, Body, a2); (i, FileRead None, a3)]) in
+  nth_error xs (length hist) = Some (OBytes b) ->
+  nth_error xs (S (length hist)) = Some (OBytes b) /\
+  nth_error xs (S (S (length hist))) = Some (OBytes b).
+Proof. exact text_idempotent. Qed.
+Print Assumptions C10_text_idempotent.
+
+(* the hypotheses are satisfiable from a text: a non-seekable request whose text announces no more than the stream holds *)
+Example C10_text_hyps : forall s t,
+  (forall z, content_length t = Some z -> (z <= Z.of_nat (length s))%Z) ->
+  consistent s (content_length t) false /\ long_enough s (content_length t) false.
+Proof. exact text_hyps_nonseekable. Qed.
+
+Module C10_text_announced_literals.
+Import String.
+Local Open Scope string_scope.
+(* stream "abcdefXYZ": " +0_6 " announces "abcdef"; "-1", "00", "6.0" and a 4301-digit text announce nothing;
+   "10" announces more than there is *)
+Example C10_text_announced :
+  map (fun t => announced_body (H "61626364656658595a") t None false)
+      [Some (H "202b305f3620"); Some (H "2d31"); Some (H "3030"); Some (H "362e30"); Some (app (repeat 48%N 4300) [54%N]); None;
+       Some (H "3130")]
+  = [ABytes (H "616263646566"); ABytes []; ABytes []; ABytes []; ABytes []; ABytes []; ADisconnect].
+Proof. vm_compute. reflexivity. Qed.
+End C10_text_announced_literals.
+
+Module C10_text_run_literals.
+Import String.
+Local Open Scope string_scope.
+Example C10_text_run :
+  outputs_text 65535 (H "61626364656658595a") (Some (H "202b305f3620")) false None false 10240%Z
+               [(0, Body, []); (0, Body, []); (0, FileRead None, [])]
+  = [OBytes (H "616263646566"); OBytes (H "616263646566"); OBytes (H "616263646566")].
+Proof. vm_compute. reflexivity. Qed.
+End C10_text_run_literals.
